@@ -288,6 +288,13 @@ Definition seq_step (s : state) (l : label) : state :=
 
 Definition seq_run (shape : list bool) (ls : list label) : state := fold_left seq_step ls (init shape).
 
+(* the observation after every action of a sequential history: number of entries appended so far *)
+Fixpoint seq_observe (s : state) (ls : list label) : list nat :=
+  match ls with
+  | [] => []
+  | l :: r => let s1 := seq_step s l in length (appended s1) :: seq_observe s1 r
+  end.
+
 End Variant.
 
 (* ---- scheduled execution at the granularity of the sync points (repaired code).
